@@ -69,7 +69,10 @@ Definition build_world (pre : list val) : fsys :=
 
 Definition entry_of_val (v : val) : entry :=
   let l := lval v in
-  mkEntry (nval (vnth l 0)) (bval (vnth l 1)) (bval (vnth l 2)) (N.land (nval (vnth l 3)) 511)
+  (* harness types 5 (a link target on an entry that says "regular file") and 6 (a link with an extended attribute)
+     are symbolic links for the writer: whatever carries a symlink target is restored as a symbolic link *)
+  let t := nval (vnth l 0) in
+  mkEntry (if (t =? 5)%N || (t =? 6)%N then 2%N else t) (bval (vnth l 1)) (bval (vnth l 2)) (N.land (nval (vnth l 3)) 511)
           (if (zval (vnth l 4) <? 0)%Z then None else Some (zval (vnth l 4))) (bval (vnth l 5)).
 
 (* ---------------------------------------------------------------- canonical dumps *)
